@@ -24,6 +24,9 @@ CHECKS = {
     "C20": dict(level="exploration", technique=DIFF + " (independent JSON parser, rational arithmetic, civil-calendar algorithm)",
                 text="held on the executions observed: serialised JSON is read back by Python's json module and compared with the document, json_deserialize(serialize(v)) == v, date/julian_day and datetime/unix round trips against an independent days-from-civil algorithm over +-3,000,000 days and +-1e11 s, fraction results against fractions.Fraction, int<->text in bases 2/8/10/16, chr/code_point over all scalar-value edges",
                 note="trusts Python's json/fractions/chr and the transcription of the days-from-civil algorithm; fraction(n, 0) and 0 ** 0 are unspecified"),
+    "C13": dict(level="exploration", technique="runtime monitoring: invariant monitor (finite-float walker) over every value produced by a type-directed workload on the float-related library surface",
+                text="held on the executions observed: every float node of every value produced by generated calls of all float-related overloads (read from the tree's own signature table), arithmetic templates, literal spellings and JSON numbers at the edges of the double range was finite or the result was an error value",
+                note="model-free; values are observed through the dump hook; overloads reached / not reached are listed in the evidence"),
 }
 REASON_PENDING = "check under construction in this round (not yet claimed)"
 
